@@ -4,7 +4,7 @@
    The modelled operations (Model.v, ModelF.v) contain every conversion / wrap modulo 2^w of the C and RecInt types and
    every IEEE rounding explicitly, so "= exact residue" states that no overflow, wrap or rounding is observable. *)
 From Coq Require Import ZArith List.
-From C03 Require Import Model ModelF Params ProofsInt ProofsEuclid ProofsIntInv ProofsRU ProofsFM ProofsBI ProofsBarrett ProofsBarrettM ProofsPrecomp ProofsMisc ProofsBF ProofsEX ProofsTop.
+From C03 Require Import Model ModelF ModelDK Params ProofsInt ProofsEuclid ProofsIntInv ProofsRU ProofsFM ProofsBI ProofsBarrett ProofsBarrettM ProofsPrecomp ProofsMisc ProofsBF ProofsEX ProofsBN ProofsTop.
 Local Open Scope Z_scope.
 
 (* integral Modular<S,C>: every instantiated (Storage_t, Compute_t) pair, every p in [minCardinality, maxCardinality] *)
@@ -79,7 +79,17 @@ Print Assumptions C03_recint_isUnit_iff_gcd_one.
    the canonical balanced representative bal_rep p x, for every p in [minCardinality, maxCardinality] as advertised *)
 Theorem C03_balanced_floating_ring_exact_advertised : BF_adv_stmt.   Proof. exact bf_adv. Qed.
 Print Assumptions C03_balanced_floating_ring_exact_advertised.
-(* neg of the balanced rings is r = -a: exact unless p is even and a = p/2 (the known finding), and that case is refuted *)
+(* neg of the balanced rings.  As repaired by frag/C03.fix-1 (/repo edb1d16: r = -a; if (r < _mhalfp) r += _p): the canonical
+   balanced representative of -a for EVERY canonical a and every p up to 2^(w-3) resp. maxCardinality, even moduli included. *)
+Theorem C03_balanced_floating_neg_exact : forall pe mx p, BF_negn_stmt pe mx p.   Proof. exact bf_negn_exact. Qed.
+Print Assumptions C03_balanced_floating_neg_exact.
+Theorem C03_balanced_int_neg_exact : forall w p, BI_negn_stmt w p.   Proof. exact bi_negn_exact. Qed.
+Print Assumptions C03_balanced_int_neg_exact.
+Theorem C03_balanced_neg_hypotheses_satisfiable : bf_negn 53 4 2 = 2 /\ bi_negn 32 4 2 = 2 /\ bal_rep 4 (- 2) = 2.
+Proof. exact bf_negn_even. Qed.
+Print Assumptions C03_balanced_neg_hypotheses_satisfiable.
+(* the unrepaired r = -a (bf_neg / bi_neg of ModelF.v, what the code was before the fix): exact unless p is even and a = p/2, and
+   that case is refuted -- the dropped normalisation is necessary *)
 Theorem C03_balanced_neg_partial : forall p a, 3 <= p -> bal_canon p a -> (p mod 2 = 1 \/ a <> p / 2) -> bf_neg a = bal_rep p (- a).
 Proof. exact bf_neg_exact_partial. Qed.
 Print Assumptions C03_balanced_neg_partial.
